@@ -33,6 +33,7 @@ type c15Gen struct {
 	padAfterSep bool // a directive must not directly follow ~;
 	noParamTilde bool // no ~n~ (tilde directive with a parameter) inside a block
 	noBraceLit   bool // no literal } (it could follow a ~})
+	noNilSubList bool // ~? never gets nil as its argument list
 	noHat       bool
 }
 
@@ -66,6 +67,7 @@ func newC15Gen(rng *lib.Rng, avoid func(string) bool) *c15Gen {
 	g.noParamTilde = nest("{", "parameterised-tilde-before-close") || nest("[", "parameterised-tilde-before-close") || nest("(", "parameterised-tilde-before-close")
 	g.noHat = avoid("dir=^ ")
 	g.noBraceLit = nest("{", "literal-brace-after-close")
+	g.noNilSubList = avoid(cellKey("?", "", "none", "literal-control") + " ")
 	return g
 }
 
@@ -208,7 +210,7 @@ func (g *c15Gen) body(budget int, depth int, needArg bool) unit {
 
 func (g *c15Gen) block(budget int, depth int) unit {
 	r := g.rng
-	switch r.Intn(7) {
+	switch r.Intn(8) {
 	case 0: // ~( ~)
 		// the word-wise modes (: and @) only around letters-and-blanks text: what a "word" is differs
 		// from Common Lisp's definition for digits, apostrophes, hyphens (listed findings)
@@ -291,6 +293,24 @@ func (g *c15Gen) block(budget int, depth int) unit {
 			}
 			return []fArg{aNil()}
 		}}
+	case 5: // ~? and ~@? : the control string and its arguments travel as arguments
+		inner := g.body(budget-1, depth, false)
+		if r.Bool() {
+			return unit{ctrl: "~@?", ndirs: 1 + inner.ndirs, gen: func() []fArg {
+				return append([]fArg{aStr(inner.ctrl)}, inner.gen()...)
+			}}
+		}
+		extra := r.Intn(2) // unused arguments at the end of the sub-list are fine
+		return unit{ctrl: "~?", ndirs: 1 + inner.ndirs, gen: func() []fArg {
+			sub := inner.gen()
+			for i := 0; i < extra; i++ {
+				sub = append(sub, aSym("unused"))
+			}
+			if len(sub) == 0 && g.noNilSubList {
+				sub = append(sub, aSym("unused"))
+			}
+			return []fArg{aStr(inner.ctrl), aList(sub...)}
+		}}
 	default: // ~{ ~} ~:{ ~}
 		inner := g.body(budget-1, depth, true)
 		iters := r.Intn(5)
@@ -348,6 +368,14 @@ func c15CompositeCases(rng *lib.Rng, n int, avoid func(string) bool) []fCase {
 					x = unit{ctrl: "~*", ndirs: 1, gen: func() []fArg { return []fArg{aSym("skipped")} }}
 				case j == 5:
 					x = unit{ctrl: "~%", ndirs: 1, gen: func() []fArg { return nil }}
+				case j == 6:
+					// # parameters: the number of arguments that remain at this point
+					x = []unit{
+						{ctrl: "~#[none~;one~;two~:;many~]", ndirs: 1, gen: func() []fArg { return nil }},
+						{ctrl: "~#d", ndirs: 1, gen: func() []fArg { return []fArg{aInt(int64(rng.Intn(2000) - 1000))} }},
+						{ctrl: "~#,'.@a", ndirs: 1, gen: func() []fArg { return []fArg{aSym("sym")} }},
+						{ctrl: "~#%", ndirs: 1, gen: func() []fArg { return nil }},
+					}[rng.Intn(4)]
 				default:
 					x = g.pieceUnit()
 				}
